@@ -81,6 +81,7 @@ class SpyCtl:
         self.state = None
         self.quiet_ops = ()
         self.executor_like = inner_cls is pathio.AsyncPathIO
+        self.short_reads = 0  # > 0: read() hands out at most that many bytes a call (what a file-like object is free to do)
 
     def vpath(self, p):
         """Real path -> (base index, virtual segments) or (None, str) when outside every base."""
@@ -278,7 +279,9 @@ class SpyFS(pathio.AbstractPathIO):
     async def read(self, file, block_size):
         h = self._handle(file)
         return await self._call(
-            "read", h.path if h else None, self.inner.read, file, block_size, info={"n": block_size, "h": h.hid if h else 0}
+            "read", h.path if h else None, self.inner.read, file,
+            min(block_size, self.ctl.short_reads) if self.ctl.short_reads and block_size > 0 else block_size,
+            info={"n": block_size, "h": h.hid if h else 0}
         )
 
     @universal_exception
